@@ -151,7 +151,7 @@ pub fn quote_case(rng: &mut StdRng, c: &Case, rep: &mut Reporter) {
         let over = &g - &out_hi;
         let kf = if collapse {
             Some("KF-C19-d")
-        } else if over <= &band * bi(8) && regime {
+        } else if regime && over <= &band * bi(crate::ssx::kf_b_cap(n, sk).ceil() as u128) {
             Some("KF-C19-b")
         } else {
             None
